@@ -13,7 +13,7 @@ pub struct PropSpec {
 }
 
 pub fn specs() -> Vec<PropSpec> {
-    vec![
+    let mut v = vec![
         PropSpec {
             id: "C11",
             engine: || Box::new(crate::pure::PureBump),
@@ -30,5 +30,30 @@ pub fn specs() -> Vec<PropSpec> {
             quick_budget_s: 300,
             thorough_budget_s: 3600,
         },
-    ]
+    ];
+    #[cfg(feature = "big")]
+    {
+        macro_rules! arena {
+            ($id:literal, $q:expr, $t:expr) => {
+                v.push(PropSpec {
+                    id: $id,
+                    engine: || Box::new(crate::arena_cells::ArenaEngine::new($id)),
+                    quick_cases: $q,
+                    thorough_cases: $t,
+                    quick_budget_s: 900,
+                    thorough_budget_s: 7200,
+                });
+            };
+        }
+        arena!("C01", 24_000, 400_000);
+        arena!("C02", 24_000, 400_000);
+        arena!("C03", 16_000, 200_000);
+        arena!("C05", 20_000, 300_000);
+        arena!("C07", 30_000, 400_000);
+        arena!("C10", 20_000, 300_000);
+        arena!("C13", 20_000, 300_000);
+        arena!("C14", 16_000, 200_000);
+        arena!("C18", 16_000, 200_000);
+    }
+    v
 }
